@@ -334,13 +334,39 @@ Record sim := Sim {
   cancelled : list tid;
   outlog : list (tid * Z * Z);
   trace : list label;         (* the labels taken, newest first *)
-  stopped : list pid          (* processes between SIGSTOP and SIGCONT *)
+  stopped : list pid;         (* processes between SIGSTOP and SIGCONT *)
+  slow_rm : list (pid * Z);   (* processes whose unlink(2) calls are delayed (injected), and by how much *)
+  stale_at : list (tid * Z)   (* when each thread that is about to remove a stale file judged it stale *)
 }.
+
+Definition assoc {A} (k : nat) (l : list (nat * A)) : option A :=
+  match find (fun x => Nat.eqb (fst x) k) l with Some x => Some (snd x) | None => None end.
+
+(** threads that entered [CStale] by this step *)
+Definition new_stale (s s' : state) : list (tid * Z) :=
+  flat_map (fun t => match cs s t, cs s' t with
+                     | CStale _, _ => []
+                     | _, CStale _ => [(t, now s')]
+                     | _, _ => []
+                     end) (rev (tids s')).
 
 Definition take (m : sim) (l : label) : option sim :=
   match step (sst m) l with
-  | Some s' => Some (Sim s' (script m) (cancelled m) (outlog m ++ new_outcomes (sst m) s') (l :: trace m) (stopped m))
+  | Some s' => Some (Sim s' (script m) (cancelled m) (outlog m ++ new_outcomes (sst m) s') (l :: trace m) (stopped m)
+                         (slow_rm m) (new_stale (sst m) s' ++ stale_at m))
   | None => None
+  end.
+
+(** the instant at which the delayed os.Remove of a thread in [CStale] takes place *)
+Definition rm_due (m : sim) (t : tid) : option Z :=
+  let s := sst m in
+  match cs s t with
+  | CStale _ =>
+      match assoc (cproc s t) (slow_rm m) with
+      | Some d => Some (match assoc t (stale_at m) with Some t0 => t0 | None => now s end + d)
+      | None => None
+      end
+  | _ => None
   end.
 
 Definition sim_step (m : sim) : option sim :=
@@ -361,7 +387,12 @@ Definition sim_step (m : sim) : option sim :=
                              end) (seq 0 (nexti s)) with
   | Some l => take m l
   | None =>
-  match first_some (fun t => if th_runs st s t then transient_label s t else None) (rev (tids s)) with
+  match first_some (fun t => if th_runs st s t then
+                               match rm_due m t with
+                               | Some due => if due <=? now s then transient_label s t else None
+                               | None => transient_label s t
+                               end
+                             else None) (rev (tids s)) with
   | Some l =>
       (* WriteMeta needs a clock reading later than the previous creation's: 1 ns passes *)
       match l with
@@ -370,7 +401,11 @@ Definition sim_step (m : sim) : option sim :=
       end
   | None =>
   (* 3. next instant *)
-  let due := next_due st s in
+  let due := fold_left min_due
+                       (map (fun t => if th_runs st s t then
+                                        match rm_due m t with Some d => Some (d, LRemove t) | None => None end
+                                      else None) (rev (tids s)))
+                       (next_due st s) in
   match script m, due with
   | (te, e) :: rest, _ =>
       let script_first := match due with Some (td, _) => te <=? td | None => true end in
@@ -382,7 +417,7 @@ Definition sim_step (m : sim) : option sim :=
                          | EStop p => p :: st
                          | ECont p => filter (fun q => negb (Nat.eqb q p)) st
                          | _ => st
-                         end) in
+                         end) (slow_rm m) (stale_at m) in
           match e with
           | ECancel _ | EStop _ | ECont _ => Some m'   (* take effect at the next steps *)
           | _ => match take m' (label_of_event e) with Some m'' => Some m'' | None => Some m' end
